@@ -1,5 +1,9 @@
 """C18 — GraphBuilder / nn.Module naming."""
-MODULES = ["contracts.c18_builder"]
+MODULES = ["contracts.c18_builder", "contracts.c12_autocast"]
+
+
+def INCLUDE(name):
+    return name.startswith("C18.") or name.startswith("C12.builder")
 
 SUB = '''
 import sys
